@@ -62,3 +62,30 @@ func FlattenBytes(ptr any) []byte {
 	}
 	return b
 }
+
+
+// SetRawLimbs overwrites the internal word arrays ([N]uint64 leaves, depth first) of the value p points to.
+func SetRawLimbs(p any, limbs [][]uint64) {
+	i := 0
+	var walk func(v reflect.Value)
+	walk = func(v reflect.Value) {
+		switch v.Kind() {
+		case reflect.Array:
+			if v.Type().Elem().Kind() == reflect.Uint64 {
+				for k := 0; k < v.Len(); k++ {
+					v.Index(k).SetUint(limbs[i][k])
+				}
+				i++
+				return
+			}
+			for k := 0; k < v.Len(); k++ {
+				walk(v.Index(k))
+			}
+		case reflect.Struct:
+			for k := 0; k < v.NumField(); k++ {
+				walk(v.Field(k))
+			}
+		}
+	}
+	walk(reflect.ValueOf(p).Elem())
+}
